@@ -223,6 +223,12 @@ edit = st.one_of(
     st.tuples(st.just('selectorText'), st.integers(0, 5), st.sampled_from(EDIT_SELECTORS)),
     st.tuples(st.just('appendMedium'), st.integers(0, 5), st.sampled_from(['tv', 'print', 'screen and (color)'])),
     st.tuples(st.just('styleText'), st.integers(0, 5), st.sampled_from(['', 'top: 0', 'a: b; /* c */ a: c !important'])),
+    st.tuples(st.just('importMediaText'), st.integers(0, 3), st.sampled_from(['print', 'tv, screen and (color)', 'all', 'not print'])),
+    st.tuples(st.just('importMedia'), st.integers(0, 3), st.sampled_from(['print', 'tv, screen and (color)', 'all'])),
+    st.tuples(st.just('importAppendMedium'), st.integers(0, 3), st.sampled_from(['tv', 'print and (color)'])),
+    st.tuples(st.just('importName'), st.integers(0, 3), st.sampled_from(['n', 'x y', None, 'a"b'])),
+    st.tuples(st.just('importHref'), st.integers(0, 3), st.sampled_from(['other.css', 'sub/o.css', 'http://example.org/x.css?a=1'])),
+    st.tuples(st.just('mediaText'), st.integers(0, 3), st.sampled_from(['print', 'tv, screen and (color)', 'all'])),
 )
 sheets_strategy = st.fixed_dictionaries({
     'model': A.sheet(max_body=3),
@@ -235,6 +241,7 @@ def apply_edit(sheet, e, ctx):
     """returns True if the edit was accepted"""
     style_rules = [r for r in walk_rules(sheet.cssRules) if r.type == r.STYLE_RULE]
     media_rules = [r for r in walk_rules(sheet.cssRules) if r.type == r.MEDIA_RULE]
+    import_rules = [r for r in sheet.cssRules if r.type == r.IMPORT_RULE]
     saved = cssutils.log.raiseExceptions
     cssutils.log.raiseExceptions = True
     try:
@@ -253,6 +260,20 @@ def apply_edit(sheet, e, ctx):
                 media_rules[e[1] % len(media_rules)].media.appendMedium(e[2])
             elif e[0] == 'styleText' and style_rules:
                 style_rules[e[1] % len(style_rules)].style.cssText = e[2]
+            elif e[0].startswith('import') and import_rules:
+                r = import_rules[e[1] % len(import_rules)]
+                if e[0] == 'importMediaText':
+                    r.media.mediaText = e[2]
+                elif e[0] == 'importMedia':
+                    r.media = e[2]
+                elif e[0] == 'importAppendMedium':
+                    r.media.appendMedium(e[2])
+                elif e[0] == 'importName':
+                    r.name = e[2]
+                else:
+                    r.href = e[2]
+            elif e[0] == 'mediaText' and media_rules:
+                media_rules[e[1] % len(media_rules)].media.mediaText = e[2]
             else:
                 return False
         return True
